@@ -300,6 +300,84 @@ func (x *Exec) model(fr *Frame, st *State, fn *ssa.Function, args []Val, site ss
 		tid := BVInt(int64(x.C.TypeID(types.Universe.Lookup("error").Type())), 32)
 		errv := Ite(enough, x.C.zeroOfSort(SIface, nil), App(SIface, "mk-iface", tid, eid))
 		return []Val{bvTV(x.C.Name("brerr", errv), fn.Signature.Results().At(0).Type())}, true, nil
+	case "(*bytes.Buffer).Write", "(*bytes.Buffer).WriteByte", "(*bytes.Buffer).Reset":
+		// bytes.Buffer as the octet string buf[off:]: Write(p) / WriteByte(c) append to it, Reset empties it. The model
+		// always re-allocates (content and length are exact; capacity and the identity of the backing array, which the
+		// buffer's API does not expose except through aliasing of Bytes() across later writes, are not modelled)
+		bp, ok := args[0].(PtrV)
+		if !ok {
+			return nil, false, nil
+		}
+		x.trust("bytes.Buffer Write/WriteByte/Reset modelled on its content buf[off:] (fresh backing array on every write)")
+		if site != nil {
+			x.obligation(fr, site, "nil", st.PC, Not(Eq(bp.Base, BVInt(0, 32))), "method call on a nil *bytes.Buffer")
+			x.C.Assume(Implies(x.absPC(st.PC), Not(Eq(bp.Base, BVInt(0, 32)))), "continuing past nil check")
+		}
+		bst := bp.Typ.Underlying().(*types.Pointer).Elem().Underlying().(*types.Struct)
+		bfld := func(name string) (PtrV, types.Type) {
+			for i := 0; i < bst.NumFields(); i++ {
+				if bst.Field(i).Name() == name {
+					p := bp
+					p.Path = append(append([]Step{}, bp.Path...), Step{IsField: true, Field: i})
+					p.Typ = types.NewPointer(bst.Field(i).Type())
+					return p, bst.Field(i).Type()
+				}
+			}
+			return PtrV{}, nil
+		}
+		bufP, bufT := bfld("buf")
+		offP, offT := bfld("off")
+		if bufT == nil || offT == nil {
+			return nil, false, nil
+		}
+		u8 := types.Typ[types.Uint8]
+		if name == "(*bytes.Buffer).Reset" {
+			if err := x.Store(st, bufP, TV{T: MkSlice(BVInt(0, 32), BVInt(0, 64), BVInt(0, 64), BVInt(0, 64)), Typ: bufT}); err != nil {
+				return nil, true, err
+			}
+			if err := x.Store(st, offP, TV{T: BVInt(0, 64), Typ: offT}); err != nil {
+				return nil, true, err
+			}
+			return []Val{}, true, nil
+		}
+		bv, err := x.Load(st, bufP)
+		if err != nil {
+			return nil, true, err
+		}
+		ov, err := x.Load(st, offP)
+		if err != nil {
+			return nil, true, err
+		}
+		buf, off := bv.(TV).T, ov.(TV).T
+		x.C.Assume(Implies(x.absPC(st.PC), And(bvCmp("bvsge", off, BVInt(0, 64)), bvCmp("bvsle", off, SlLen(buf)))), "library invariant: read offset within the buffer")
+		r, hs := x.elemRegion(u8)
+		h := x.heapGet(st, r, hs)
+		ln := x.C.Name("bwlen", bvBin("bvsub", SlLen(buf), off))
+		zero := ConstArray(SArr(SIdx, SBV(8)), BVInt(0, 8))
+		grown := x.copyElems(zero, BVInt(0, 64), Select(h, SlBase(buf)), bvBin("bvadd", SlOff(buf), off), ln)
+		var n Term
+		if name == "(*bytes.Buffer).Write" {
+			p := args[1].(TV).T
+			n = SlLen(p)
+			grown = x.copyElems(x.C.Name("bwold", grown), ln, x.C.Name("bwsrc", Select(h, SlBase(p))), SlOff(p), n)
+		} else {
+			n = BVInt(1, 64)
+			grown = Store(x.C.Name("bwold", grown), ln, args[1].(TV).T)
+		}
+		grown = x.C.Name("bwnew", grown)
+		ref := x.AllocBacking(st, u8, &grown)
+		newLen := x.C.Name("bwnl", bvBin("bvadd", ln, n))
+		if err := x.Store(st, bufP, TV{T: MkSlice(ref, BVInt(0, 64), newLen, newLen), Typ: bufT}); err != nil {
+			return nil, true, err
+		}
+		if err := x.Store(st, offP, TV{T: BVInt(0, 64), Typ: offT}); err != nil {
+			return nil, true, err
+		}
+		nilErr := bvTV(x.C.zeroOfSort(SIface, nil), types.Universe.Lookup("error").Type())
+		if name == "(*bytes.Buffer).WriteByte" {
+			return []Val{nilErr}, true, nil
+		}
+		return []Val{bvTV(n, types.Typ[types.Int]), nilErr}, true, nil
 	case "io.ReadFull":
 		// io.ReadFull(r, buf) for r = *bytes.Buffer / *bytes.Reader: n = min(len(buf), unread) octets are copied and
 		// consumed; err == nil iff n == len(buf) (io.EOF / io.ErrUnexpectedEOF otherwise)
